@@ -303,6 +303,9 @@ def run(ctx):
     # an event that arrives while the same client's disconnect is in progress (asyncio, all release orders)
     from .. import sched_async
     sched_async.run_event_during_disconnect(ctx)
+    # the next message of the same transport processed while the handler of a binary event is still running
+    from . import c05_overlap
+    c05_overlap.run(ctx)
     ctx.coverage['rule'] = ('generated scenarios (several clients/namespaces, function/catch-all/class handlers, ids None/0/equal '
                             'across clients/huge, binary arguments, handlers returning None/scalars/lists/dicts/tuples/bytes; the '
                             'application keeps ONE object per distinct return / emit value and hands the same object over every '
@@ -321,4 +324,12 @@ def replay(ctx, r):
     if isinstance(r.get('replay'), dict) and r['replay'].get('kernel') == 'sched_async':
         from .. import sched_async
         return sched_async.replay(ctx, r['replay'])
+    oc = (r.get('replay') or {}).get('overlap') if isinstance(r.get('replay'), dict) else None
+    oc = oc or r.get('overlap')
+    if oc:
+        from . import c05_overlap
+        bad = c05_overlap.run_case(oc)
+        print('overlapping-delivery case:', oc)
+        print('oracle:', 'violations: %s' % bad if bad else 'holds')
+        return 1 if bad else 0
     return S.replay_case(ctx, r, oracle=oracle)
